@@ -454,13 +454,35 @@ def split_ifexp(expr):
     return [([], expr)]
 
 
+def decide_under(expr, guards):
+    """`expr` with every conditional sub-expression whose test is one of the path's guards (same text; `not` stripped) replaced by
+    the arm that guard selects - on that path the other arm is not evaluated"""
+    import copy as _copy
+    known = {}
+    for t, pol in flat_facts(guards):
+        known[ast.dump(t)] = pol
+
+    class D(ast.NodeTransformer):
+        def visit_IfExp(self, n):
+            self.generic_visit(n)
+            t, flip = n.test, False
+            while isinstance(t, ast.UnaryOp) and isinstance(t.op, ast.Not):
+                t, flip = t.operand, not flip
+            k = known.get(ast.dump(t))
+            if k is None:
+                return n
+            return n.body if (k != flip) else n.orelse
+
+    return D().visit(_copy.deepcopy(expr))
+
+
 def return_leaves(fn):
     """all (guards, value) a function can return, conditional expressions split"""
     out = []
     for pe in path_returns(fn):
         if pe.kind == "return" and pe.value is not None:
             for c, e in split_ifexp(pe.value):
-                out.append((pe.guards + c, e, pe))
+                out.append((pe.guards + c, decide_under(e, pe.guards + c), pe))
         elif pe.kind in ("return", "fall"):
             out.append((pe.guards, None, pe))
     return out
